@@ -1,5 +1,6 @@
 import FastorModel.Model.ViewAlias
 import FastorModel.Proofs.ViewWrite
+import FastorModel.Props.C05
 /-
   C18 — overlapping slice assignment with noalias() acts on a snapshot of the source.
 
@@ -9,7 +10,8 @@ import FastorModel.Proofs.ViewWrite
   the CURRENT memory, so an unguarded overlapping assignment really shows the traversal-dependent result.
 
   The hypotheses `hnd`/`hd` ("the stored positions are pairwise distinct and lane j is stored at dpos j") are
-  what `seg_lanes`/`row_lanes` (Props/C05) establish for the 1-D and 2-D view classes.
+  discharged for the 1-D classes (`noalias_snapshot_1d`) and the n-D classes of every rank (`noalias_snapshot_nd`, via
+  the odometer enumeration of Proofs/Odometer.lean) and the 2-D classes (`noalias_snapshot_2d`).
 
   * `noalias_snapshot`         guarded assignment = evaluate the WHOLE right-hand side on the original contents,
                                then update: every selected element is `op(old, rhs(old) j)`, the rest is unchanged;
@@ -89,6 +91,113 @@ theorem perfect_overlap_eq_guarded (op : WOp) (its : List Iter) (g : α → Nat 
 
 example : (List.range 5).map (exec .mul (fun m j => m (j + 1) + 1) (linIters 2 true ⟨1, 1, 3⟩) (fun p => (p : Int)))
     = [0, 2, 6, 12, 4] := by decide
+
+/-! ### the hypotheses discharged for the view classes -/
+
+/-- **noalias_snapshot, 1-D views** (dynamic and fixed): all extents, steps, widths, macro settings, operators and
+    right-hand sides (reading the destination tensor anywhere) -/
+theorem noalias_snapshot_1d (e : Nat) (he : e ≤ 64) (vea : Bool) (a : Ax) (hn : a.ext < 2 ^ 64) (hs : 0 < a.step)
+    (op : WOp) (r : Rhs α) (m : Nat → α) :
+    let its := linIters (2 ^ e) vea a
+    let m' := guardedAssign op its its (fun j => j * a.step + a.first) r m
+    (∀ k < a.ext, m' (k * a.step + a.first) = op.ap (m (k * a.step + a.first)) (r.val m k)) ∧
+    (∀ p, (∀ k < a.ext, p ≠ k * a.step + a.first) → m' p = m p) := by
+  intro its m'
+  have hl : lanesOf its = (List.range a.ext).map fun k => (0 + (k * a.step + a.first), 0 + k) := seg_lanes e he vea .rmw 0 0 a hn
+  have hnd : ((lanesOf its).map (·.1)).Nodup := by rw [hl]; exact C05.run_nodup 0 a.first a.step a.ext hs
+  have hd : ∀ l ∈ lanesOf its, (fun j => j * a.step + a.first) l.2 = l.1 := by
+    intro l hl'
+    rw [hl] at hl'
+    obtain ⟨k, _, rfl⟩ := List.mem_map.1 hl'
+    simp
+  have h := noalias_snapshot op its its (fun j => j * a.step + a.first) r m hnd hnd hd (fun _ h => h)
+  refine ⟨?_, ?_⟩
+  · intro k hk
+    have hmem : (0 + (k * a.step + a.first), 0 + k) ∈ lanesOf its := by
+      rw [hl]; exact List.mem_map.2 ⟨k, List.mem_range.2 hk, rfl⟩
+    simpa using h.1 _ hmem
+  · intro p hp
+    apply h.2
+    rw [hl]
+    intro hin
+    simp only [List.map_map, List.mem_map, List.mem_range, Function.comp] at hin
+    obtain ⟨k, hk, hkp⟩ := hin
+    exact hp k hk (by omega)
+
+/-- **noalias_snapshot, 2-D views** (dynamic and fixed) -/
+theorem noalias_snapshot_2d (e : Nat) (he : e ≤ 64) (vea : Bool) (N : Nat) (a0 a1 : Ax) (hn : a1.ext < 2 ^ 64)
+    (hs0 : 0 < a0.step) (hs1 : 0 < a1.step) (hin : ∀ k < a1.ext, k * a1.step + a1.first < N) (he1 : 0 < a1.ext)
+    (op : WOp) (r : Rhs α) (m : Nat → α) :
+    let its := rowIters (2 ^ e) vea N a0 a1
+    let pos := fun i k => (a0.step * i + a0.first) * N + (k * a1.step + a1.first)
+    let m' := guardedAssign op its its (fun j => pos (j / a1.ext) (j % a1.ext)) r m
+    (∀ i < a0.ext, ∀ k < a1.ext, m' (pos i k) = op.ap (m (pos i k)) (r.val m (i * a1.ext + k))) ∧
+    (∀ p, (∀ i < a0.ext, ∀ k < a1.ext, p ≠ pos i k) → m' p = m p) := by
+  intro its pos m'
+  have hl := C05.row_lanes e he vea N a0 a1 hn
+  have hnd : ((lanesOf its).map (·.1)).Nodup := by rw [hl]; exact C05.row_nodup N a0 a1 hs0 hs1 hin
+  have hd : ∀ l ∈ lanesOf its, (fun j => pos (j / a1.ext) (j % a1.ext)) l.2 = l.1 := by
+    intro l hl'
+    rw [hl] at hl'
+    obtain ⟨i, _, hl''⟩ := List.mem_flatMap.1 hl'
+    obtain ⟨k, hk, rfl⟩ := List.mem_map.1 hl''
+    have hk' := List.mem_range.1 hk
+    show pos ((i * a1.ext + k) / a1.ext) ((i * a1.ext + k) % a1.ext) = _
+    have h1 : (i * a1.ext + k) / a1.ext = i := by
+      rw [Nat.mul_comm, Nat.mul_add_div he1, Nat.div_eq_of_lt hk', Nat.add_zero]
+    have h2 : (i * a1.ext + k) % a1.ext = k := by
+      rw [Nat.mul_comm, Nat.mul_add_mod, Nat.mod_eq_of_lt hk']
+    rw [h1, h2]
+  have h := noalias_snapshot op its its (fun j => pos (j / a1.ext) (j % a1.ext)) r m hnd hnd hd (fun _ h => h)
+  refine ⟨?_, ?_⟩
+  · intro i hi k hk
+    have hmem : (pos i k, i * a1.ext + k) ∈ lanesOf its := by
+      rw [hl]
+      exact List.mem_flatMap.2 ⟨i, List.mem_range.2 hi, List.mem_map.2 ⟨k, List.mem_range.2 hk, rfl⟩⟩
+    exact h.1 _ hmem
+  · intro p hp
+    apply h.2
+    rw [hl]
+    intro hmem
+    simp only [List.map_flatMap, List.mem_flatMap, List.map_map, List.mem_map, List.mem_range, Function.comp] at hmem
+    obtain ⟨i, hi, k, hk, hkp⟩ := hmem
+    exact hp i hi k hk hkp.symm
+/-- **noalias_snapshot, n-D views of every rank** (the odometer classes), `dpos` being any function that maps the flat
+    index of a multi-index of the slice to its position (the copy's view is read back through the same index map) -/
+theorem noalias_snapshot_nd (V : Nat) (hV : 0 < V) (dims : List Nat) (axs : List Ax) (hne : axs ≠ [])
+    (hin : C05.InBounds dims axs) (hlen : dims.length = axs.length) (hext : ∀ a ∈ axs, 0 < a.ext)
+    (dpos : Nat → Nat) (hdpos : ∀ j ∈ box ((axs.map (·.ext)).map fun e => (e, 1)), dpos (flat (axs.map (·.ext)) j) = posOf dims axs j)
+    (op : WOp) (r : Rhs α) (m : Nat → α) :
+    let its := odoIters V dims axs false V
+    let m' := guardedAssign op its its dpos r m
+    (∀ j ∈ box ((axs.map (·.ext)).map fun e => (e, 1)),
+        m' (posOf dims axs j) = op.ap (m (posOf dims axs j)) (r.val m (flat (axs.map (·.ext)) j))) ∧
+    (∀ p, (∀ j ∈ box ((axs.map (·.ext)).map fun e => (e, 1)), p ≠ posOf dims axs j) → m' p = m p) := by
+  intro its m'
+  have hl := odo_lanes V hV dims axs hne hlen hext V (Or.inl rfl)
+  rw [incs_one] at hl
+  have hnd : ((lanesOf its).map (·.1)).Nodup := by
+    rw [hl, List.map_map]
+    have := C05.pos_nodup dims axs hin 0
+    simpa [Function.comp_def] using this
+  have hd : ∀ l ∈ lanesOf its, dpos l.2 = l.1 := by
+    intro l hl'
+    rw [hl] at hl'
+    obtain ⟨j, hj, rfl⟩ := List.mem_map.1 hl'
+    exact hdpos j (by simpa [List.map_map] using hj)
+  have h := noalias_snapshot op its its dpos r m hnd hnd hd (fun _ h => h)
+  refine ⟨?_, ?_⟩
+  · intro j hj
+    have hmem : (posOf dims axs j, flat (axs.map (·.ext)) j) ∈ lanesOf its := by
+      rw [hl]; exact List.mem_map.2 ⟨j, by simpa [List.map_map] using hj, rfl⟩
+    exact h.1 _ hmem
+  · intro p hp
+    apply h.2
+    rw [hl]
+    intro hmem
+    simp only [List.map_map, List.mem_map, Function.comp] at hmem
+    obtain ⟨j, hj, hjp⟩ := hmem
+    exact hp j (by simpa [List.map_map] using hj) hjp.symm
 
 /-! ### the flag is one-shot -/
 
